@@ -29,7 +29,7 @@ type ChainLink struct {
 
 // Layout holds the layout decisions of one rendering.  With Plain set no random decision is taken.
 type Layout struct {
-	R     Rnd
+	Seed  uint64 // every decision is a pure function of (Seed, directive ID, decision name): independent of rendering order
 	Plain bool
 	EOL   string // "\n", "\r\n", "\r"
 	Unit  string // indentation unit
@@ -41,7 +41,7 @@ type Layout struct {
 func PlainLayout() *Layout { return &Layout{Plain: true, EOL: "\n", Unit: "  "} }
 
 func RandomLayout(r Rnd) *Layout {
-	l := &Layout{R: r}
+	l := &Layout{Seed: uint64(r.Intn(1<<30))<<30 | uint64(r.Intn(1<<30))}
 	l.EOL = pick(r, []string{"\n", "\n", "\n", "\r\n", "\r"})
 	l.Unit = pick(r, []string{"  ", "  ", "    ", "\t", " ", ""})
 	l.PExplicit = pick(r, []int{0, 0, 2, 6, 12})
@@ -54,13 +54,47 @@ func RandomLayout(r Rnd) *Layout {
 	return l
 }
 
-func (l *Layout) ch(p int) bool { return !l.Plain && p > 0 && chance(l.R, p, 12) }
+// rnd returns a value in [0, n) determined by the seed, the directive and the decision name.
+func (l *Layout) rnd(id int, what string, n int) int {
+	if n <= 1 {
+		return 0
+	}
+	h := l.Seed ^ 0x9e3779b97f4a7c15
+	h = mix(h + uint64(id)*0xbf58476d1ce4e5b9)
+	for i := 0; i < len(what); i++ {
+		h = mix(h ^ uint64(what[i]))
+	}
+	return int(mix(h) % uint64(n))
+}
+
+func mix(z uint64) uint64 {
+	z = (z ^ (z >> 30)) * 0xbf58476d1ce4e5b9
+	z = (z ^ (z >> 27)) * 0x94d049bb133111eb
+	return z ^ (z >> 31)
+}
+
+func (l *Layout) ch(id int, what string, p int) bool {
+	return !l.Plain && p > 0 && l.rnd(id, what, 12) < p
+}
+
+// lrnd adapts (layout, directive, decision) to the Rnd interface for helpers such as genWords.
+type lrnd struct {
+	l    *Layout
+	id   int
+	what string
+	n    int
+}
+
+func (x *lrnd) Intn(n int) int {
+	x.n++
+	return x.l.rnd(x.id, fmt.Sprintf("%s#%d", x.what, x.n), n)
+}
 
 // Rendered is the result of rendering a directive tree.
 type Rendered struct {
 	Root  string
 	Files map[string][]byte
-	Pos   map[*Dir]Pos
+	Pos   map[int]Pos       // by Dir.ID
 	Spans map[string][]Span // expected lexeme stream per file
 	// Features counts the layout features that were actually used (for generator-health accounting).
 	Features map[string]int
@@ -92,25 +126,26 @@ func quoteParam(s string) string {
 	return `"` + strings.ReplaceAll(strings.ReplaceAll(s, `\`, `\\`), `"`, `\"`) + `"`
 }
 
-func (rr *renderer) trivia(f *fileBuf, ind string) {
+func (rr *renderer) trivia(f *fileBuf, ind string, id int, where string) {
 	l := rr.l
-	if f.afterText {
+	if f.afterText || l.Plain {
 		return
 	}
-	for l.ch(l.PTrivia) {
-		switch l.R.Intn(4) {
+	for k := 0; k < 3 && l.ch(id, fmt.Sprintf("trivia-%s-%d", where, k), l.PTrivia); k++ {
+		x := &lrnd{l: l, id: id, what: fmt.Sprintf("triviatext-%s-%d", where, k)}
+		switch x.Intn(4) {
 		case 0:
 			// blank line
 		case 1:
-			f.sb.WriteString(ind + "# " + genWords(l.R, 2))
+			f.sb.WriteString(ind + "# " + genWords(x, 2))
 		case 2:
 			f.sb.WriteString(ind + "###" + l.EOL)
 			f.line++
-			f.sb.WriteString(ind + "block " + genWords(l.R, 2) + l.EOL)
+			f.sb.WriteString(ind + "block " + genWords(x, 2) + l.EOL)
 			f.line++
 			f.sb.WriteString(ind + "###")
 		case 3:
-			f.sb.WriteString(pick(l.R, []string{" ", "\t", "   "}))
+			f.sb.WriteString(pick(x, []string{" ", "\t", "   "}))
 		}
 		rr.out.Features["trivia"]++
 		rr.eol(f)
@@ -126,7 +161,9 @@ func (rr *renderer) renderList(f *fileBuf, dirs []*Dir, depth int) {
 	l := rr.l
 	for _, d := range dirs {
 		ind := rr.indentFor(depth)
-		rr.trivia(f, ind)
+		if d.Kw != "INCLUDE" {
+			rr.trivia(f, ind, d.ID, "before")
+		}
 		if d.Kw == "INCLUDE" {
 			// an INCLUDE: the included directives are written to their own file with an arbitrary base depth
 			f.afterText = false
@@ -136,14 +173,14 @@ func (rr *renderer) renderList(f *fileBuf, dirs []*Dir, depth int) {
 			f.spans = append(f.spans, Span{'K', kb, f.off() - 1})
 			name := d.Params[0].Text
 			txt := name
-			if l.ch(l.PQuote) {
+			if l.ch(d.ID, "incquote", l.PQuote) {
 				txt = quoteParam(name)
 			}
 			f.sb.WriteString(" ")
 			pb := f.off()
 			f.sb.WriteString(txt)
 			f.spans = append(f.spans, Span{'P', pb, f.off() - 1})
-			rr.out.Pos[d] = Pos{File: f.name, Line: f.line, Index: kb, Chain: f.chain}
+			rr.out.Pos[d.ID] = Pos{File: f.name, Line: f.line, Index: kb, Chain: f.chain}
 			line := f.line
 			rr.eol(f)
 			g := rr.file(d.IncludeFile)
@@ -151,7 +188,7 @@ func (rr *renderer) renderList(f *fileBuf, dirs []*Dir, depth int) {
 			g.chain = append([]ChainLink{{f.name, line}}, f.chain...)
 			base := 0
 			if !l.Plain {
-				base = l.R.Intn(3)
+				base = l.rnd(d.ID, "incbase", 3)
 			}
 			rr.renderList(g, d.IncludeDirs, base)
 			g.chain = saved
@@ -164,18 +201,18 @@ func (rr *renderer) renderList(f *fileBuf, dirs []*Dir, depth int) {
 		kb := f.off()
 		f.sb.WriteString(d.Kw)
 		f.spans = append(f.spans, Span{'K', kb, f.off() - 1})
-		rr.out.Pos[d] = Pos{File: f.name, Line: f.line, Index: kb, Chain: f.chain}
-		for _, p := range d.Params {
+		rr.out.Pos[d.ID] = Pos{File: f.name, Line: f.line, Index: kb, Chain: f.chain}
+		for pi, p := range d.Params {
 			txt := p.Text
-			if p.MustQuote || (!p.NoQuote && l.ch(l.PQuote)) {
+			if p.MustQuote || (!p.NoQuote && l.ch(d.ID, fmt.Sprintf("quote%d", pi), l.PQuote)) {
 				txt = quoteParam(p.Text)
 				if !p.MustQuote {
 					rr.out.Features["quoted-param"]++
 				}
 			}
 			sep := " "
-			if l.ch(1) {
-				sep = pick(l.R, []string{"  ", "\t", " \t "})
+			if l.ch(d.ID, fmt.Sprintf("sep%d", pi), 1) {
+				sep = pick(&lrnd{l: l, id: d.ID, what: fmt.Sprintf("septext%d", pi)}, []string{"  ", "\t", " \t "})
 			}
 			f.sb.WriteString(sep)
 			pb := f.off()
@@ -185,7 +222,7 @@ func (rr *renderer) renderList(f *fileBuf, dirs []*Dir, depth int) {
 		annotated := false
 		if d.Annot != "" {
 			annotated = true
-			if l.ch(l.PBlockAnnot) {
+			if l.ch(d.ID, "blockannot", l.PBlockAnnot) {
 				f.sb.WriteString(" /*")
 				ab := f.off()
 				f.sb.WriteString(" " + d.Annot + " ")
@@ -200,11 +237,11 @@ func (rr *renderer) renderList(f *fileBuf, dirs []*Dir, depth int) {
 				rr.out.Features["line-annotation"]++
 			}
 		}
-		if !annotated && d.BodyKind != "text" && l.ch(l.PEolComment) {
-			f.sb.WriteString(" # " + genWords(l.R, 2))
+		if !annotated && d.BodyKind != "text" && l.ch(d.ID, "eolcomment", l.PEolComment) {
+			f.sb.WriteString(" # " + genWords(&lrnd{l: l, id: d.ID, what: "eolcommenttext"}, 2))
 			rr.out.Features["eol-comment"]++
-		} else if !annotated && d.BodyKind != "text" && l.ch(l.PTrail) {
-			f.sb.WriteString(pick(l.R, []string{" ", "  ", "\t"}))
+		} else if !annotated && d.BodyKind != "text" && l.ch(d.ID, "trail", l.PTrail) {
+			f.sb.WriteString(pick(&lrnd{l: l, id: d.ID, what: "trailtext"}, []string{" ", "  ", "\t"}))
 			rr.out.Features["trailing-blank"]++
 		}
 		rr.eol(f)
@@ -216,10 +253,10 @@ func (rr *renderer) renderList(f *fileBuf, dirs []*Dir, depth int) {
 				explicit = true
 			case "no":
 			default:
-				explicit = len(d.Children) > 0 && l.ch(l.PExplicit)
+				explicit = len(d.Children) > 0 && l.ch(d.ID, "explicit", l.PExplicit)
 			}
 		}
-		textParens := d.Kw == "Description" && l.ch(l.PExplicit)
+		textParens := d.Kw == "Description" && l.ch(d.ID, "textparens", l.PExplicit)
 		if explicit {
 			f.sb.WriteString(ind)
 			f.spans = append(f.spans, Span{'(', f.off(), f.off()})
@@ -230,7 +267,7 @@ func (rr *renderer) renderList(f *fileBuf, dirs []*Dir, depth int) {
 		// body
 		if d.BodyKind != "" {
 			bind := rr.indentFor(depth + 1)
-			if !l.Plain && chance(l.R, 1, 8) {
+			if !l.Plain && l.rnd(d.ID, "bodyindent", 8) == 0 {
 				bind = ind // body not indented deeper than its directive
 			}
 			if d.BodyKind == "text" {
@@ -280,7 +317,7 @@ func (rr *renderer) renderList(f *fileBuf, dirs []*Dir, depth int) {
 		// children
 		rr.renderList(f, d.Children, depth+1)
 		if explicit {
-			rr.trivia(f, ind)
+			rr.trivia(f, ind, d.ID, "close")
 			f.sb.WriteString(ind)
 			f.spans = append(f.spans, Span{')', f.off(), f.off()})
 			f.sb.WriteString(")")
@@ -300,7 +337,7 @@ func (rr *renderer) file(name string) *fileBuf {
 
 // Render renders the directive tree.
 func Render(dirs []*Dir, l *Layout) *Rendered {
-	out := &Rendered{Root: "root.jst", Files: map[string][]byte{}, Pos: map[*Dir]Pos{}, Spans: map[string][]Span{}, Features: map[string]int{}}
+	out := &Rendered{Root: "root.jst", Files: map[string][]byte{}, Pos: map[int]Pos{}, Spans: map[string][]Span{}, Features: map[string]int{}}
 	rr := &renderer{l: l, out: out, files: map[string]*fileBuf{}}
 	f := rr.file(out.Root)
 	rr.renderList(f, dirs, 0)
